@@ -311,12 +311,15 @@ def plain_constructors(P, also=()):
             txt = 'update(%s){%s}' % (show(v[1]), ', '.join('%s: %s' % (k_, show(x_)) for k_, x_ in v[2]))
         else:
             txt = show(v)
+        # an empty map is an empty map, whichever container the field uses
+        txt = re.sub(r'\b(HashMap|BTreeMap)::new\(\)', 'Map::new()', txt)
+        txt = re.sub(r'\b(HashSet|BTreeSet)::new\(\)', 'Set::new()', txt)
         if 'closure<' in txt or 'promoted[' in txt:
             continue        # not a plain aggregate of the parameters (decided by the rules of the function itself)
         if any(str(a_.get('place', {}).get('ty', '')).startswith('&mut ') for c in f.calls() for a_ in c['term']['args'][:1]):
             continue        # builds its value by mutation (`let mut p = self.clone(); p.push(x); p`): not read off the exit alone
         names = set(re.findall(r'([A-Za-z_][\w:]*)\(', txt))
-        if not names <= {'to_string', 'clone', 'Vec::new', 'HashMap::new', 'HashSet::new', 'String::new', 'Into::into', 'from', 'to_owned', 'ItemPath::empty', 'update', 'into'}:
+        if not names <= {'to_string', 'clone', 'Vec::new', 'Map::new', 'Set::new', 'String::new', 'Into::into', 'from', 'to_owned', 'ItemPath::empty', 'update', 'into'}:
             continue        # computes something (an iterator chain, a lookup): decided by the rules of the function itself
         out[f.id] = txt
     return out
